@@ -85,6 +85,8 @@ type FuncContract struct {
 	GhostEntry []GhostAssign          // ghost assignments executed on entry
 	CallAsserts map[string][]*Clause   // assertions at calls of the named callee (callee parameter names in scope)
 	SendAssert []*Clause // assertions at every send site in this function (bound var e)
+	Terminates   []string // tags of the termination obligations (structural: range loops only)
+	TerminatesOn bool
 	SiteGhosts []*SiteGhost // ghost assignments executed at map-update sites selected by static map type
 	Walkrels   []*Clause // two-state relations over ghost state satisfied by every call of this callback; must be reflexive and transitive
 	Walkpost   *WalkPost // the function is a tree-walk callback: per-entry postcondition used to summarise the walk
@@ -179,7 +181,7 @@ type ContractFile struct {
 var directiveKw = map[string]bool{
 	"ghost": true, "on": true, "pred": true, "spec": true, "func": true, "requires": true, "ensures": true,
 	"modifies": true, "let": true, "safety": true, "loop": true, "assume": true, "lemma": true,
-	"extern": true, "axiom": true, "canary": true, "callassert": true, "siteassert": true, "cut": true, "guarded_by": true, "lockinv": true, "lockctx": true, "trusted": true, "sendassert": true, "walkpost": true, "walkrel": true, "siteghost": true,
+	"extern": true, "axiom": true, "canary": true, "callassert": true, "siteassert": true, "cut": true, "guarded_by": true, "lockinv": true, "lockctx": true, "trusted": true, "sendassert": true, "terminates": true, "walkpost": true, "walkrel": true, "siteghost": true,
 }
 
 var tagRe = regexp.MustCompile(`^\[([A-Za-z0-9_,! ]*)\]\s*`)
@@ -618,6 +620,13 @@ func parseContractFile(path, pkg string, cf *ContractFile) error {
 			tags, _ := parseTags(rest)
 			cur.Safety = tags
 			cur.SafetyOn = true
+		case "terminates":
+			// terminates [tags]: every loop of the function has a structural bound (range over a slice, string or map)
+			if cur == nil {
+				return fail(fmt.Errorf("terminates outside func"))
+			}
+			cur.Terminates, _ = parseTags(rest)
+			cur.TerminatesOn = true
 		case "trusted":
 			if cur == nil {
 				return fail(fmt.Errorf("trusted outside func"))
